@@ -767,6 +767,109 @@ pub fn run(ctx: &Ctx) -> Report {
             total_mutants += np * np;
         }
     }
+    // very many tiny parameters: a query string (or folded form body) of 9 999 .. 100 000 one-letter parameters; the
+    // genuine request is accepted, and an appended parameter, a changed or dropped last parameter, a changed first one
+    // are refused under the genuine signature (every parameter is covered, however many there are)
+    {
+        let mut many: Vec<(usize, bool, Carrier)> = Vec::new();
+        for n in [9_999usize, 10_000, 10_001, 16_383, 16_384, 16_385, 20_000] {
+            for c in [Carrier::Header, Carrier::Query] {
+                many.push((n, false, c));
+            }
+        }
+        for n in [10_001usize, 32_769, 65_537, 100_000] {
+            many.push((n, true, Carrier::Header));
+        }
+        let ib = index_base;
+        let part = par_sweep(many.len() as u64, |i, st| {
+            let (n, in_body, carrier) = many[i as usize];
+            let params: Vec<(Vec<u8>, Vec<u8>)> = (0..n).map(|k| (vec![b'a' + (k % 3) as u8], Vec::new())).collect();
+            let mut plan = e2e::base_plan(carrier);
+            let mut cfg = Cfg::basic(e2e::base_instant());
+            if in_body {
+                plan.method = "POST".into();
+                plan.headers.push(("Content-Type".into(), b"application/x-www-form-urlencoded".to_vec()));
+                plan.signed.push("content-type".into());
+                plan.body = refmodel::sign::spell_query(&params).into_bytes();
+                plan.body_params = Some(params);
+                cfg.fold = true;
+            } else {
+                plan.url_params = params;
+            }
+            let built = build(&plan);
+            let genuine = WireReq::from_wire(&built.wire);
+            let gcase = Case { wire: genuine.clone(), cfg: cfg.clone(), prov: ProvSpec::standard() };
+            let j = e2e::judge(&gcase);
+            st.evaluations += 1;
+            st.validated += 1;
+            st.nontrivial(&(n, in_body, carrier, "many-parameters"));
+            if !j.reference.accepted() {
+                machinery_error(&format!("C01 many-parameters base n={} in_body={}: reference says {:?}", n, in_body, j.reference.error));
+            }
+            if !j.sut.is_ok() {
+                st.note("many-parameters-base-refused-by-implementation");
+                return;
+            }
+            // edits of the tail and of the head, under the genuine signature
+            let edit = |f: &dyn Fn(&mut String)| -> WireReq {
+                let mut w = genuine.clone();
+                if in_body {
+                    let mut t = String::from_utf8(w.body.clone()).unwrap();
+                    f(&mut t);
+                    w.body = t.into_bytes();
+                } else {
+                    // the user's parameters come first in the URI; the authentication parameters (query carrier) follow
+                    let (head, tail) = match w.uri.find("&X-Amz-Algorithm") {
+                        Some(p) => (w.uri[..p].to_string(), w.uri[p..].to_string()),
+                        None => (w.uri.clone(), String::new()),
+                    };
+                    let mut t = head;
+                    f(&mut t);
+                    w.uri = format!("{}{}", t, tail);
+                }
+                w
+            };
+            let edits: Vec<(&str, WireReq)> = vec![
+                ("parameter-appended", edit(&|t| t.push_str("&admin=true"))),
+                ("last-parameter-changed", edit(&|t| {
+                    let p = t.rfind('&').unwrap();
+                    t.truncate(p);
+                    t.push_str("&z=");
+                })),
+                ("last-parameter-dropped", edit(&|t| {
+                    let p = t.rfind('&').unwrap();
+                    t.truncate(p);
+                })),
+                ("first-parameter-changed", edit(&|t| {
+                    let p = t.find("a=").unwrap();
+                    t.replace_range(p..p + 1, "z");
+                })),
+            ];
+            for (k, (label, w)) in edits.into_iter().enumerate() {
+                let c = Case { wire: w, cfg: cfg.clone(), prov: ProvSpec::standard() };
+                let j2 = e2e::judge(&c);
+                st.evaluations += 1;
+                st.validated += 1;
+                st.transitions += 1;
+                if j2.sut.is_ok() && !j2.reference.accepted() && !j2.unspecified {
+                    st.violation(Violation {
+                        index: ib + i * 8 + k as u64,
+                        what: format!("forgery-accepted:{}-among-{}-tiny-parameters{}", label, n, if in_body { " of a folded form body" } else { "" }),
+                        case: json!({"many_parameters": {"n": n, "in_body": in_body, "carrier": format!("{:?}", carrier), "edit": label}}),
+                        expected: "refused (the canonical query differs)".into(),
+                        observed: "Ok".into(),
+                        known: None,
+                    });
+                }
+                if let SutResult::Panic(p) = &j2.sut {
+                    st.violation(Violation { index: ib + i * 8 + k as u64, what: "panic".into(), case: json!({"many_parameters": {"n": n, "in_body": in_body, "edit": label}}), expected: "Ok or Err".into(), observed: p.clone(), known: None });
+                }
+            }
+        });
+        st = st.merge(part);
+        index_base += many.len() as u64 * 8;
+    }
+
     // concurrency: a forged request (another method / path / body under the genuine request's credential and
     // signature) validated at the same time as the genuine one, multiplexed on one thread with a provider that
     // is Pending before it answers; every order of polls; the forgery must be refused in all of them
@@ -830,7 +933,7 @@ pub fn run(ctx: &Ctx) -> Report {
     Report {
         stats: st,
         rule: format!(
-            "{} validly signed base requests (carrier x options x token x shape, one shape carrying x-amz-content-sha256 / Content-Length / Content-MD5 as S3 clients do), each accepted by implementation and reference; for each, every single-component mutation: 13 methods; every URI position x every byte http admits ({} values) + 7 insertions + deletion per position; every header (signed — list-valued ones split at every list separator into two fields, adjacent fields of one name joined by 6 separators or swapped, each under HTTP/1.0, 1.1, 2 and 3; one value holds Latin-1 bytes, a UTF-8 sequence and the replacement character U+FFFD; another is valid UTF-8 made of replacement characters only —, unsigned, Authorization, date, token) position x 11 bytes (incl. 0xE8, 0xE9, 0xA0, 0xC3) + insertion + deletion, header removed/added/duplicated/renamed; every bit of every body byte, truncations, appends, byte-order marks / zero-width space / CR LF inserted into bodies; old signature transplanted onto requests re-signed with a changed instant (10 deltas, 5 renderings), date text (also with a seconds / minutes / hours field one or two beyond its range, in four forms; one base is stamped on the last second of a minute with its date header unsigned), 12 scope near-misses, 5 access keys, signed-list drops/additions, token changes; provider key: all 256 single-bit flips, 5 off-by-one derivations, another secret; signature: every digit x 15 other values, upper case, every truncation, extensions, all hex strings of length <= 2{}. Finally the genuine request, a forged one under its signature (method / path / body changed) and the genuine one again are validated as two (thorough: three) futures multiplexed on one thread against a provider that is Pending first, in every order of polls. Each mutant is validated right after the genuine request was accepted on the same thread (so a remembered success cannot vouch for it); every mutant the reference refuses is also submitted as the Parts the validator returned for the genuine request, overwritten with the mutant's method, target, headers and body (whatever the validator left in those Parts cannot vouch for another request). Oracle: the implementation may return Ok only if the reference verifier, run on the request as received with the key the provider handed out, accepts. states = distinct reference strings-to-sign (+ refusal stage); non-trivial = distinct (mutated request, provider)",
+            "{} validly signed base requests (carrier x options x token x shape, one shape carrying x-amz-content-sha256 / Content-Length / Content-MD5 as S3 clients do), each accepted by implementation and reference; for each, every single-component mutation: 13 methods; every URI position x every byte http admits ({} values) + 7 insertions + deletion per position; every header (signed — list-valued ones split at every list separator into two fields, adjacent fields of one name joined by 6 separators or swapped, each under HTTP/1.0, 1.1, 2 and 3; one value holds Latin-1 bytes, a UTF-8 sequence and the replacement character U+FFFD; another is valid UTF-8 made of replacement characters only —, unsigned, Authorization, date, token) position x 11 bytes (incl. 0xE8, 0xE9, 0xA0, 0xC3) + insertion + deletion, header removed/added/duplicated/renamed; every bit of every body byte, truncations, appends, byte-order marks / zero-width space / CR LF inserted into bodies; old signature transplanted onto requests re-signed with a changed instant (10 deltas, 5 renderings), date text (also with a seconds / minutes / hours field one or two beyond its range, in four forms; one base is stamped on the last second of a minute with its date header unsigned), 12 scope near-misses, 5 access keys, signed-list drops/additions, token changes; provider key: all 256 single-bit flips, 5 off-by-one derivations, another secret; signature: every digit x 15 other values, upper case, every truncation, extensions, all hex strings of length <= 2{}. Also requests with 9 999 .. 20 000 one-letter query parameters (10 001 .. 100 000 in a folded form body): a parameter appended, the last changed or dropped, the first changed under the genuine signature. Finally the genuine request, a forged one under its signature (method / path / body changed) and the genuine one again are validated as two (thorough: three) futures multiplexed on one thread against a provider that is Pending first, in every order of polls. Each mutant is validated right after the genuine request was accepted on the same thread (so a remembered success cannot vouch for it); every mutant the reference refuses is also submitted as the Parts the validator returned for the genuine request, overwritten with the mutant's method, target, headers and body (whatever the validator left in those Parts cannot vouch for another request). Oracle: the implementation may return Ok only if the reference verifier, run on the request as received with the key the provider handed out, accepts. states = distinct reference strings-to-sign (+ refusal stage); non-trivial = distinct (mutated request, provider)",
             bs.len(), uri_bytes.len(),
             if thorough { "; plus all pairs over ~600 strided mutation sites on four bases" } else { "" }
         ),
